@@ -118,7 +118,8 @@ impl P<'_> {
         Ok((op, self.expect_quoted()?))
     }
     fn expression(&mut self, depth: usize) -> Result<Tree, String> {
-        if depth > 200 {
+        // (a guard of the port, not of MPD, whose parser recurses without a limit)
+        if depth > 4000 {
             return Err("too deep".into());
         }
         debug_assert_eq!(self.cur(), b'(');
